@@ -256,8 +256,39 @@ def replay(data):
     from htstabilizer.graph import Graph
     inp = data["input"]
     n, gid = inp.get("n"), inp.get("graph_id")
+    import htstabilizer.lc_classes as lcc
+    import htstabilizer.linear_index as li
+    LC = {2: lcc.LCClass2, 3: lcc.LCClass3, 4: lcc.LCClass4, 5: lcc.LCClass5, 6: lcc.LCClass6}
+    if "grouping" in inp:                      # linear_index.presentation_independent
+        com = LC[n].combinatorics[inp["type"]]
+        pres = li.Repr([li.NTuple(list(g)) for g in inp["grouping"]]) if inp["grouping"] else li.Repr()
+        try:
+            j = com["to_lin_idx"](pres)
+            back = com["from_lin_idx1"](j)
+            part = lambda r: sorted(tuple(sorted(t.data)) for grp in r.groups for t in grp)
+            ok = part(back) == part(pres) and com["to_lin_idx"](back) == j
+            print(f"{inp['type']}: grouping {inp['grouping']} encodes to {j}, which decodes to {back!r}: {'same partition' if ok else 'ANOTHER partition - REPRODUCED'}")
+        except Exception as e:
+            ok = False
+            print("REPRODUCED: raised", type(e).__name__, e)
+        return 0 if ok else 1
+    if "type" in inp and "index" in inp:       # linear_index.from_to
+        com = LC[n].combinatorics[inp["type"]]
+        r = com["from_lin_idx1"](inp["index"])
+        back = com["to_lin_idx"](r)
+        print(f"{inp['type']}: index {inp['index']} -> {r!r} -> {back}")
+        return 0 if back == inp["index"] else 1
+    if "id" in inp and gid is None:            # class_id.roundtrip
+        got = LC[n](inp["id"]).id()
+        print(f"LCClass{n}({inp['id']}).id() = {got}")
+        return 0 if got == inp["id"] else 1
+    if "i" in inp and "j" in inp:              # n choose 2 codec
+        idx = li.linear_index_from_n_choose_2(n, inp["i"], inp["j"])
+        back = tuple(int(x) for x in li.linear_index_to_n_choose2_to(n, idx))
+        print(f"pair ({inp['i']},{inp['j']}) of {n}: index {idx} -> {back}")
+        return 0 if back == (inp["i"], inp["j"]) else 1
     if gid is None:
-        print("replay: rerun ./check C19")
+        print("no single failing input in this replay file (obligation:", data.get("obligation"), "): rerun ./check C19")
         return 1
     res, _ = chunk_graphs((n, gid, gid + 1))
     bad = [(f, r[2]) for f, r in res.items() if r[2]]
